@@ -51,6 +51,7 @@ def run(ctx):
         # what was negotiated stays what it was: each release path obeys its own toggle; toggles survive save/restore field by field
         from rules import c15, c19
         ctx.run_rule("R8-toggle-use", c15.release_toggles, F, "R8-toggle-use")
+        ctx.run_rule("R8-toggle-use", configured_toggle_readers, F, "R8-toggle-use")
         if any(k.startswith("api::vfs::persist::") for k in F.fns):      # feature persist (absent in configuration D)
             ctx.run_rule("R1-options-roundtrip", c19.r1_options, F)
     finally:
@@ -389,6 +390,49 @@ def r6_reinit(ctx, F, table):
     ctx.check("R6-reinit", "publish-after-backends", ok, "Vfs::init sets `initialized` before all backends are initialised", loc=b.loc())
     # DESTROY ends the session for every backend and makes a new INIT possible (shared with C15: nothing outlives the session)
     vfs_destroy(ctx, F, "R6-reinit")
+
+
+TOGGLE_READERS = {     # who may read the *configured* toggle: everything after INIT must consult the negotiated (runtime) flag
+    ("passthrough", "no_open"): {"init"}, ("passthrough", "no_opendir"): {"init"}, ("passthrough", "writeback"): {"init"}, ("passthrough", "killpriv_v2"): {"init"},
+    ("overlayfs", "no_open"): {"init"}, ("overlayfs", "no_opendir"): {"init"}, ("overlayfs", "killpriv_v2"): {"init"},
+    ("overlayfs", "writeback"): {"init", "create", "open"},      # reviewed: the overlay adjusts open flags from its configuration
+}
+
+
+def configured_toggle_readers(ctx, F, rule):
+    """The configured value of a negotiable feature (cfg.no_open, cfg.no_opendir, cfg.writeback, cfg.killpriv_v2) is an input of
+    INIT only; a request handler that reads it instead of the negotiated flag behaves as if the feature had been negotiated when
+    it was not (or the reverse: a backend under a vfs honours the capability whatever its own configuration says)."""
+    def places(x):
+        if isinstance(x, list):
+            if x and isinstance(x[0], int) and not isinstance(x[0], bool) and all(isinstance(e, (list, str)) for e in x[1:]):
+                yield x
+            for e in x:
+                yield from places(e)
+        elif isinstance(x, dict):
+            for e in x.values():
+                yield from places(e)
+    readers = {}
+    for k, b in list(F.fns.items()) + list(F.built.items()):
+        mod = k.split("::")[0]
+        if mod not in ("passthrough", "overlayfs"):
+            continue
+        for bb in b.reachable():
+            blk = b.blocks[bb]
+            for p in places([blk["s"], blk["t"]]):
+                names = [e[2] for e in p[1:] if isinstance(e, list) and e and e[0] == "."]
+                for a, c in zip(names, names[1:]):
+                    if a in ("cfg", "config") and (mod, c) in TOGGLE_READERS:
+                        owner = b
+                        while owner.kind in ("closure", "coroutine") and owner.owner in F.fns:
+                            owner = F.fns[owner.owner]
+                        readers.setdefault((mod, c), {}).setdefault(owner.name, owner)
+    for (mod, c), allowed in sorted(TOGGLE_READERS.items()):
+        got = readers.get((mod, c), {})
+        for nm, ob in sorted(got.items()):
+            ctx.check(rule, "configured-%s/%s/%s" % (mod, c, nm), nm in allowed,
+                      "%s::%s reads the configured `%s` instead of the flag negotiated at INIT; only %s may read the configuration value" % (mod, nm, c, sorted(allowed)), loc=ob.loc())
+        ctx.check(rule, "configured-%s/%s/init-reads" % (mod, c), "init" in got, "%s::init no longer consults the configured `%s`" % (mod, c))
 
 
 def vfs_destroy(ctx, F, rule):
